@@ -354,7 +354,10 @@ let check_result line (tag : string) (res : obj) (r : refres) (pre : sys option)
   if res.dim <> r.rdim then rep ("C03:" ^ tag ^ "/dim") line (Fail (Printf.sprintf "dimension %d, reference %d" res.dim r.rdim));
   (* C03: gamma(result) contains every piece of the exact result *)
   List.iter (fun p ->
-    rep ("C03:" ^ tag ^ "/contains-exact") line (of_ob true "result does not contain the exact result (verified inclusion test)" (incl p res.gamma))) r.pieces;
+    let v = of_ob true "result does not contain the exact result (verified inclusion test)" (incl p res.gamma) in
+    rep ("C03:" ^ tag ^ "/contains-exact") line v;
+    (* exactness / bestness (C04) is an equality: for exact carriers the containment is part of it *)
+    if !prop = "C04" && exact_car res then rep ("C04:" ^ tag ^ "/contains-exact") line v) r.pieces;
   if !prop = "C04" && exact_car res then begin
     (match r.claim with
      | Exact ->
